@@ -266,13 +266,17 @@ Section RSound.
       destruct (rT_final T1 p HT1in HT1 Hp1) as (u & y & x & vy & Eu & Eo & Ex & Ey & Ht & Hl).
       unfold first_in in Hsrc. unfold n_uses in Eu. destruct (n_ins T1) as [|i0 ir] eqn:Ei; [discriminate|]. simpl in Hsrc. injection Hsrc as ->.
       simpl in Eu. injection Eu as <- Eu. apply app_eq_nil in Eu as [-> Ec].
-      exists y, x, vy. repeat split; auto. pose proof (proj2 (producer_spec _ _ _ HpT1)) as Hr. rewrite Eo in Hr. destruct Hr as [E|[]]. now symmetry.
+      assert (Hry : rin = y).
+      { pose proof (proj2 (producer_spec _ _ _ HpT1)) as Hr. fold T1 in Hr. rewrite Eo in Hr. destruct Hr as [E|[]]. now symmetry. }
+      exists y, x, vy. split; [reflexivity|]. split; [exact Ec|]. split; [exact Eo|]. split; [exact Hry|]. split; [exact Ex|].
+      split; [exact Ey|]. split; [exact Ht | exact Hl].
     Qed.
     Lemma T2_shape : exists t2o rv v2, n_caps T2 = [] /\ n_outs T2 = [t2o] /\ ef xin = Some rv /\ ef t2o = Some v2 /\
       teq v2 (transpose q rv) /\ length q = length (shape rv).
     Proof.
       destruct (rT_final T2 q HT2in HT2 Hp2) as (u & y & x & vy & Eu & Eo & Ex & Ey & Ht & Hl).
-      unfold n_uses in Eu. rewrite Hi2 in Eu. simpl in Eu. injection Eu as <- Ec. exists y, x, vy. repeat split; auto.
+      unfold n_uses in Eu. rewrite Hi2 in Eu. simpl in Eu. injection Eu as <- Ec. exists y, x, vy.
+      split; [exact Ec|]. split; [exact Eo|]. split; [exact Ex|]. split; [exact Ey|]. split; [exact Ht | exact Hl].
     Qed.
 
     Definition old_axes : option (list Z) :=
